@@ -23,7 +23,7 @@ def write_ok(kind, sid):
     """`&mut storage` / `&mut restrict_mut()` exist: join needs SharedGetMutStorage (ids 0..10),
     par_join additionally DistinctStorage (ids 0..5), lend_join nothing"""
     if kind == K_JOIN:
-        return sid <= 10
+        return sid <= 10 or sid == 16
     if kind == K_PAR:
         return sid <= 5
     return True
@@ -220,7 +220,7 @@ class JGen(sg.Gen):
         return rng.choice([63, 64, 4095, 4096, 5000, 262143, 262144, 300000])
 
     def delta(self, sid=None):
-        if sid == sg.NULL_SID:
+        if sid in sg.UNIT_SIDS:
             return self.rng.randint(-3, 3)
         return self.rng.randint(-40, 40)
 
@@ -550,12 +550,12 @@ class JGen(sg.Gen):
 
 def pick_sids(rng, focus):
     n = rng.randint(2, 5)
-    plain, flagged, deref = list(range(0, 6)), list(range(6, 11)), list(range(11, 16))
+    plain, flagged, deref = list(range(0, 6)), list(range(6, 11)) + [16], list(range(11, 16)) + [17]
     if focus == "par":
         # mostly the storages that have the mutable ParJoin; the others are joined read-only
         sids = rng.sample(plain, min(n, rng.randint(2, 4)))
         while len(sids) < n:
-            s = rng.randrange(16)
+            s = rng.randrange(sg.NSIDS)
             if s not in sids:
                 sids.append(s)
     elif focus == "restrict":
@@ -568,7 +568,7 @@ def pick_sids(rng, focus):
     else:
         sids = [rng.choice(plain), rng.choice(flagged + deref)]
         while len(sids) < n:
-            s = rng.randrange(16)
+            s = rng.randrange(sg.NSIDS)
             if s not in sids:
                 sids.append(s)
     rng.shuffle(sids)
